@@ -12,16 +12,18 @@ class ElementDG(Element):
                               + elem.refdom.nfacets * elem.facet_dofs
                               + elem.refdom.nedges * elem.edge_dofs
                               + elem.interior_dofs)
+        # one name per local basis function, in their order: vertex, edge,
+        # facet, interior (elem.dofnames lists vertex, facet, edge names)
         self.dofnames = (
             elem.refdom.nnodes * elem.dofnames[:elem.nodal_dofs]
-            + elem.refdom.nfacets * elem.dofnames[slice(elem.nodal_dofs,
-                                                        (elem.nodal_dofs
-                                                         + elem.facet_dofs))]
             + elem.refdom.nedges * elem.dofnames[slice((elem.nodal_dofs
                                                         + elem.facet_dofs),
                                                        (elem.nodal_dofs
                                                         + elem.facet_dofs
                                                         + elem.edge_dofs))]
+            + elem.refdom.nfacets * elem.dofnames[slice(elem.nodal_dofs,
+                                                        (elem.nodal_dofs
+                                                         + elem.facet_dofs))]
             + elem.dofnames[(elem.nodal_dofs
                              + elem.facet_dofs
                              + elem.edge_dofs):]
